@@ -4,5 +4,6 @@ cd /verif
 for d in seeded/*/; do
   id=$(basename "$d"); prop=$(python3 -c "import json;print(json.load(open('$d/meta.json')).get('property','${id%%-*}'))")
   out=$(/verif/seedtest.sh "/verif/seeded/$id/patch.diff" "$prop" quick 2>&1)
-  if echo "$out" | grep -q "exit=1"; then echo "$id ($prop): caught"; else echo "$id ($prop): MISSED"; echo "$out" | tail -3; fi
+  miss=$(python3 -c "import json;print(json.load(open('$d/meta.json')).get('documented_miss',''))")
+  if echo "$out" | grep -q "exit=1"; then echo "$id ($prop): caught"; elif [ -n "$miss" ]; then echo "$id ($prop): documented miss ($miss)"; else echo "$id ($prop): MISSED"; echo "$out" | tail -3; fi
 done
